@@ -205,6 +205,32 @@ func (w *World) cycleInvariants(c *cycleRec, tr *cyc.CycleTrace, phase string) {
 				}
 			}
 		}
+		// C14, closed loop: the load a shard reports is the sum over the targets it reports
+		if e.Property == "C14" {
+			for _, s := range rep.Shards {
+				if !s.StatusOK || len(s.RT) == 0 {
+					continue
+				}
+				var ss, st int64
+				for _, x := range s.Rep {
+					ss += x.Series
+					st += x.TotalSeries
+				}
+				rt := s.RT[0]
+				e.Key("world-runtime", fmt.Sprintf("targets=%d", min(len(s.Rep), 4)), fmt.Sprintf("head-above-sum=%v", rt.HeadSeries > ss))
+				if rt.ProcessSeries != st {
+					e.Violate("world-runtime", "field=process", "cycle %d: %s reports process series %d but the totals of the targets it reports add up to %d", c.N, s.ID, rt.ProcessSeries, st)
+				}
+				if rt.HeadSeries < ss {
+					e.Violate("world-runtime", "field=head", "cycle %d: %s reports head series %d, below the sum %d of its targets' series", c.N, s.ID, rt.HeadSeries, ss)
+				}
+				if p := w.podByName(s.ID); p != nil && p.Prom != nil {
+					if h, err := p.Prom.Head(); err == nil && rt.HeadSeries < h {
+						e.Violate("world-runtime", "field=head-prometheus", "cycle %d: %s reports head series %d, below its Prometheus' own head count %d", c.N, s.ID, rt.HeadSeries, h)
+					}
+				}
+			}
+		}
 		// C16, closed loop: a shard is treated as in sync exactly when it runs the coordinator's
 		// configuration (same semantic revision; external labels and comments do not count)
 		if e.Property == "C16" {
